@@ -64,8 +64,7 @@ theorem lemma_cands_method (sat : Nat → Bytes → Bool) (R : List Route) (m : 
 theorem lemma_lookupM (sat : Nat → Bytes → Bool) (noRoute : Bool) (script : List Reg) (R : List Route)
     (hR : specRoutes script = some R) (hN : normal R = true) (hstd : ∀ g ∈ script, g.method ∈ stdMethods)
     (m path : Bytes) (hp : path.head? = some '/')
-    (hS : dShadow1 R m (cutAny path) = false)
-    (hC : dCfall1 sat R m (cutAny path) = false) :
+    (hOw : dReplaced1 sat R m (cutAny path) = false) :
     lookupM sat (build noRoute script) m path =
       (refRoute sat R m (cutAny path)).map fun r =>
         (leafOf r, pushAll Ctx.fresh ((routeMatch sat r (cutAny path)).getD [])) := by
@@ -78,7 +77,7 @@ theorem lemma_lookupM (sat : Nat → Bytes → Bool) (noRoute : Bool) (script : 
         unfold refRoute; rw [lemma_cands_method sat R m _ hf]; rfl
       rw [this]; rfl
     · simp only [hf, if_false, Option.bind_some]
-      exact getRoute_ref sat R (lemma_normalR R hN) m path hp hS hC
+      exact getRoute_ref sat R (lemma_normalR R hN) m path hp hOw
   · have ht : treeOf (build noRoute script) m = none := by simp [treeOf, hm]
     rw [ht]
     have hf : R.filter (·.method = m) = [] := by
